@@ -7,11 +7,13 @@ import A2lVerif.Props.C03Lex
   String or Identifier token whose first byte is `"`, spans at least two bytes.  The splice needs it for
   `&filetext[filename_start + 1 .. filename_end - 1]` (an A2ML block token may consist of a single `"`, but it
   always follows an Identifier token);
-* the specification `walk` of the splice (plain recursion over the token list) and the proof that the index
-  arithmetic over `include_directives` implements it (`splice_eq_walk`, `tokenize_succ`);
-* no panic, the error theorems, the self-including file;
-* the inline-expansion specifications `expand` / `expandI` and the simulation `tokenize_sim`;
-* the fuel only matters for `.hang` (`tokenize_fuel_mono`).
+* the specification `walk` of the splice (plain recursion over the token list; the recursive call is an
+  `Option`: `none` when the depth limit is reached) and the proof that the index arithmetic over
+  `include_directives` implements it (`splice_eq_walk`, `tokenize_walk`);
+* no panic, no hang, the error theorems (missing file, depth limit, propagation), the self-including file;
+* the inline-expansion specifications `expand` / `expandI` (same depth budget) and the simulation `tokenize_sim`;
+* the depth budget only matters for `IncludeFileError` (`tokenize_budget_mono`, `reachesMissing_mono`), and every
+  `IncludeFileError` is that of a reachable missing file or of the depth limit (`includeFileError_cases`).
 -/
 
 namespace A2l.Lex
@@ -359,8 +361,9 @@ def St.add (st : St) (r : TokenResult) : St :=
 def St.push (st : St) (l : List Tok) : St := { st with tokens := st.tokens ++ l }
 
 /-- the splice as a plain walk over the token list: an `Include` token followed by a name token is replaced by the
-    tokens of the named file, every other token is copied; `rec` tokenizes the included file -/
-def walk (rec : Filename → Nat → Bytes → Res) (fs : FS) (filename : Filename) (b : Bytes) : List Tok → St → R St
+    tokens of the named file, every other token is copied; `rec` tokenizes the included file, `rec = none`:
+    the depth limit is reached and no file is loaded -/
+def walk (rec : Option Rec) (fs : FS) (filename : Filename) (b : Bytes) : List Tok → St → R St
   | [], st => .ok st
   | t :: ts, st =>
     if t.ttype = .include then
@@ -368,14 +371,17 @@ def walk (rec : Filename → Nat → Bytes → Res) (fs : FS) (filename : Filena
       | [] => .err (.IncompleteIncludeError filename.display t.line)
       | nm :: ts' =>
         if isName nm then
-          match load fs (resolve fs filename b nm).full with
-          | some data =>
-            match rec (resolve fs filename b nm) st.nextFileid data with
-            | .ok r => walk rec fs filename b ts' (st.add r)
-            | .err e => .err e
-            | .panic => .panic
-            | .hang => .hang
+          match rec with
           | none => .err (.IncludeFileError filename.display nm.line (nameOf b nm))
+          | some f =>
+            match load fs (resolve fs filename b nm).full with
+            | some data =>
+              match f (resolve fs filename b nm) st.nextFileid data with
+              | .ok r => walk rec fs filename b ts' (st.add r)
+              | .err e => .err e
+              | .panic => .panic
+              | .hang => .hang
+            | none => .err (.IncludeFileError filename.display nm.line (nameOf b nm))
         else .err (.IncompleteIncludeError filename.display t.line)
     else walk rec fs filename b ts (st.push [t])
 
@@ -392,38 +398,60 @@ def finish : R St → Res
 
 /-! ### list facts -/
 
-theorem walk_nil (rec : Filename → Nat → Bytes → Res) (fs : FS) (fn : Filename) (b : Bytes) (st : St) :
+theorem walk_nil (rec : Option Rec) (fs : FS) (fn : Filename) (b : Bytes) (st : St) :
     walk rec fs fn b [] st = .ok st := by simp [walk]
 
-theorem walk_cons_copy (rec : Filename → Nat → Bytes → Res) (fs : FS) (fn : Filename) (b : Bytes) (t : Tok)
+theorem walk_cons_copy (rec : Option Rec) (fs : FS) (fn : Filename) (b : Bytes) (t : Tok)
     (ts : List Tok) (st : St) (h : t.ttype ≠ .include) :
     walk rec fs fn b (t :: ts) st = walk rec fs fn b ts (st.push [t]) := by
   rw [walk.eq_def]; simp only [if_neg h]
 
-theorem walk_inc_nil (rec : Filename → Nat → Bytes → Res) (fs : FS) (fn : Filename) (b : Bytes) (t : Tok)
+theorem walk_inc_nil (rec : Option Rec) (fs : FS) (fn : Filename) (b : Bytes) (t : Tok)
     (st : St) (h : t.ttype = .include) :
     walk rec fs fn b [t] st = .err (.IncompleteIncludeError fn.display t.line) := by
   rw [walk.eq_def]; simp only [if_pos h]
 
-theorem walk_inc_notName (rec : Filename → Nat → Bytes → Res) (fs : FS) (fn : Filename) (b : Bytes) (t nm : Tok)
+theorem walk_inc_notName (rec : Option Rec) (fs : FS) (fn : Filename) (b : Bytes) (t nm : Tok)
     (ts : List Tok) (st : St) (h : t.ttype = .include) (hn : ¬ isName nm) :
     walk rec fs fn b (t :: nm :: ts) st = .err (.IncompleteIncludeError fn.display t.line) := by
   rw [walk.eq_def]; simp only [if_pos h, if_neg hn]
 
-theorem walk_inc_name (rec : Filename → Nat → Bytes → Res) (fs : FS) (fn : Filename) (b : Bytes) (t nm : Tok)
+theorem walk_inc_name (rec : Option Rec) (fs : FS) (fn : Filename) (b : Bytes) (t nm : Tok)
     (ts : List Tok) (st : St) (h : t.ttype = .include) (hn : isName nm) :
     walk rec fs fn b (t :: nm :: ts) st =
+      match rec with
+      | none => .err (.IncludeFileError fn.display nm.line (nameOf b nm))
+      | some f =>
+        match load fs (resolve fs fn b nm).full with
+        | some data =>
+          match f (resolve fs fn b nm) st.nextFileid data with
+          | .ok r => walk rec fs fn b ts (st.add r)
+          | .err e => .err e
+          | .panic => .panic
+          | .hang => .hang
+        | none => .err (.IncludeFileError fn.display nm.line (nameOf b nm)) := by
+  rw [walk.eq_def]; simp only [if_pos h, if_pos hn]
+
+/-- the depth limit is reached: the directive is the error of a file that cannot be loaded -/
+theorem walk_inc_limit (fs : FS) (fn : Filename) (b : Bytes) (t nm : Tok)
+    (ts : List Tok) (st : St) (h : t.ttype = .include) (hn : isName nm) :
+    walk none fs fn b (t :: nm :: ts) st = .err (.IncludeFileError fn.display nm.line (nameOf b nm)) := by
+  rw [walk_inc_name _ _ _ _ _ _ _ _ h hn]
+
+theorem walk_inc_some (f : Rec) (fs : FS) (fn : Filename) (b : Bytes) (t nm : Tok)
+    (ts : List Tok) (st : St) (h : t.ttype = .include) (hn : isName nm) :
+    walk (some f) fs fn b (t :: nm :: ts) st =
       match load fs (resolve fs fn b nm).full with
       | some data =>
-        match rec (resolve fs fn b nm) st.nextFileid data with
-        | .ok r => walk rec fs fn b ts (st.add r)
+        match f (resolve fs fn b nm) st.nextFileid data with
+        | .ok r => walk (some f) fs fn b ts (st.add r)
         | .err e => .err e
         | .panic => .panic
         | .hang => .hang
       | none => .err (.IncludeFileError fn.display nm.line (nameOf b nm)) := by
-  rw [walk.eq_def]; simp only [if_pos h, if_pos hn]
+  rw [walk_inc_name _ _ _ _ _ _ _ _ h hn]
 
-theorem walk_noInc (rec : Filename → Nat → Bytes → Res) (fs : FS) (fn : Filename) (b : Bytes) :
+theorem walk_noInc (rec : Option Rec) (fs : FS) (fn : Filename) (b : Bytes) :
     ∀ (seg l : List Tok) (st : St), (∀ t ∈ seg, t.ttype ≠ .include) →
       walk rec fs fn b (seg ++ l) st = walk rec fs fn b l (st.push seg) := by
   intro seg
@@ -523,14 +551,14 @@ def R.andThen {α β : Type} (x : R α) (f : α → R β) : R β :=
   | .panic => .panic
   | .hang => .hang
 
-theorem loop_succ (rec : Filename → Nat → Bytes → Res) (fs : FS) (fn : Filename) (b : Bytes) (input : List Tok)
+theorem loop_succ (rec : Option Rec) (fs : FS) (fn : Filename) (b : Bytes) (input : List Tok)
     (dirs : List Nat) (n idx : Nat) (st : St) :
     loop rec fs fn b input dirs (n + 1) idx st =
       (directive rec fs fn b input dirs idx st).andThen (loop rec fs fn b input dirs n (idx + 1)) := by
   rw [loop]; cases directive rec fs fn b input dirs idx st <;> rfl
 
 /-- one iteration of the loop is one `/include` step of the walk -/
-theorem directive_walk (rec : Filename → Nat → Bytes → Res) (fs : FS) (fn : Filename) (b : Bytes)
+theorem directive_walk (rec : Option Rec) (fs : FS) (fn : Filename) (b : Bytes)
     (input : List Tok) (dirs : List Nat) (k : Nat) (st : St) (pre seg l' : List Tok) (inc : Tok)
     (hinput : input = pre ++ inc :: (seg ++ l')) (hinc : inc.ttype = .include)
     (hseg : ∀ t ∈ seg, t.ttype ≠ .include) (hl' : Starts l') (wf : WF b input)
@@ -565,11 +593,15 @@ theorem directive_walk (rec : Filename → Nat → Bytes → Res) (fs : FS) (fn 
         (wf.quote _ _ _ hincAt hnext hinc hn)
       rw [if_pos (show t0.ttype = .string ∨ t0.ttype = .identifier from hn), hname, List.cons_append, walk_inc_name _ _ _ _ _ _ _ _ hinc hn]
       simp only [resolve]
+      cases rec with
+      | none => rfl
+      | some f =>
+      simp only
       cases load fs (makeIncludeFilename fs (nameOf b t0) fn.full) with
       | none => rfl
       | some data =>
         simp only
-        cases rec { full := makeIncludeFilename fs (nameOf b t0) fn.full, display := nameOf b t0 }
+        cases f { full := makeIncludeFilename fs (nameOf b t0) fn.full, display := nameOf b t0 }
           st.nextFileid data with
         | ok r =>
           simp only [R.andThen]
@@ -588,7 +620,7 @@ theorem includeDirectives_cons_inc (inc : Tok) (rest : List Tok) (o : Nat) (h : 
   rw [includeDirectives, if_pos h]
 
 /-- the loop from the `k`-th directive on is the walk over the rest of the input that starts at that directive -/
-theorem loop_walk (rec : Filename → Nat → Bytes → Res) (fs : FS) (fn : Filename) (b : Bytes)
+theorem loop_walk (rec : Option Rec) (fs : FS) (fn : Filename) (b : Bytes)
     (input : List Tok) (dirs : List Nat) (wf : WF b input) :
     ∀ (m k : Nat) (pre l : List Tok) (dpre : List Nat) (st : St),
       input = pre ++ l → Starts l → dpre.length = k →
@@ -639,7 +671,7 @@ theorem loop_walk (rec : Filename → Nat → Bytes → Res) (fs : FS) (fn : Fil
       · rw [hlen]; simpa using hm
 
 /-- **the index arithmetic of `tokenize` implements the walk** (for token lists as `tokenize_core` produces them) -/
-theorem splice_eq_walk (rec : Filename → Nat → Bytes → Res) (fs : FS) (fn : Filename) (fid : Nat) (b : Bytes)
+theorem splice_eq_walk (rec : Option Rec) (fs : FS) (fn : Filename) (fid : Nat) (b : Bytes)
     (input : List Tok) (wf : WF b input) :
     splice rec fs fn fid b input = finish (walk rec fs fn b input (St.init fn fid b)) := by
   have hin : input = input.takeWhile notInc ++ input.dropWhile notInc := (List.takeWhile_append_dropWhile).symm
@@ -704,83 +736,137 @@ theorem wf_of_lex (b : Bytes) (lt : List Lex.Token) (fid : Nat) (h : Lex.tokeniz
         subst ha; subst hc
         exact Lex.lex_quoteOk b lt h i a0 c0 ha0 hc0 hinc hn hq
 
-/-- **`tokenize` is `tokenize_core` followed by the walk** -/
-theorem tokenize_succ (fs : FS) (n : Nat) (fn : Filename) (fid : Nat) (b : Bytes) :
-    tokenize fs (n + 1) fn fid b =
+
+/-- the recursive call that is available with the depth budget `n`: none at `0` (`depth = MAX_INCLUDE_DEPTH`) -/
+def deeper (fs : FS) : Nat → Option Rec
+  | 0 => none
+  | n + 1 => some (tokenize fs n)
+
+theorem tokenize_eq_with (fs : FS) (n : Nat) (fn : Filename) (fid : Nat) (b : Bytes) :
+    tokenize fs n fn fid b = tokenizeWith (deeper fs n) fs fn fid b := by
+  cases n <;> rfl
+
+theorem tokenizeWith_walk (rec : Option Rec) (fs : FS) (fn : Filename) (fid : Nat) (b : Bytes) :
+    tokenizeWith rec fs fn fid b =
       match Lex.tokenize b with
       | .err k l => .err (.Lex fn.display k l)
       | .panic => .panic
       | .hang => .hang
-      | .ok lt => finish (walk (tokenize fs n) fs fn b (lt.map (Tok.ofLex fid)) (St.init fn fid b)) := by
-  rw [tokenize]
+      | .ok lt => finish (walk rec fs fn b (lt.map (Tok.ofLex fid)) (St.init fn fid b)) := by
+  rw [tokenizeWith]
   cases h : Lex.tokenize b with
   | ok lt => exact splice_eq_walk _ _ _ _ _ _ (wf_of_lex b lt fid h)
   | err k l => rfl
   | panic => rfl
   | hang => rfl
 
+/-- **`tokenize` is `tokenize_core` followed by the walk** -/
+theorem tokenize_walk (fs : FS) (n : Nat) (fn : Filename) (fid : Nat) (b : Bytes) :
+    tokenize fs n fn fid b =
+      match Lex.tokenize b with
+      | .err k l => .err (.Lex fn.display k l)
+      | .panic => .panic
+      | .hang => .hang
+      | .ok lt => finish (walk (deeper fs n) fs fn b (lt.map (Tok.ofLex fid)) (St.init fn fid b)) := by
+  rw [tokenize_eq_with, tokenizeWith_walk]
+
 theorem tokenize_of_lex (fs : FS) (n : Nat) (fn : Filename) (fid : Nat) (b : Bytes) (lt : List Lex.Token)
     (h : Lex.tokenize b = .ok lt) :
-    tokenize fs (n + 1) fn fid b =
-      finish (walk (tokenize fs n) fs fn b (lt.map (Tok.ofLex fid)) (St.init fn fid b)) := by
-  rw [tokenize_succ, h]
+    tokenize fs n fn fid b =
+      finish (walk (deeper fs n) fs fn b (lt.map (Tok.ofLex fid)) (St.init fn fid b)) := by
+  rw [tokenize_walk, h]
 
-/-! ### no panic -/
+/-! ### no panic, no hang -/
 
-theorem walk_no_panic (rec : Filename → Nat → Bytes → Res) (fs : FS) (fn : Filename) (b : Bytes)
-    (hrec : ∀ f i d, rec f i d ≠ .panic) (l : List Tok) (st : St) : walk rec fs fn b l st ≠ .panic := by
+theorem walk_no_panic (rec : Option Rec) (fs : FS) (fn : Filename) (b : Bytes)
+    (hrec : ∀ g, rec = some g → ∀ f i d, g f i d ≠ .panic) (l : List Tok) (st : St) :
+    walk rec fs fn b l st ≠ .panic := by
+  fun_induction walk rec fs fn b l st <;> simp_all
+
+theorem walk_no_hang (rec : Option Rec) (fs : FS) (fn : Filename) (b : Bytes)
+    (hrec : ∀ g, rec = some g → ∀ f i d, g f i d ≠ .hang) (l : List Tok) (st : St) :
+    walk rec fs fn b l st ≠ .hang := by
   fun_induction walk rec fs fn b l st <;> simp_all
 
 theorem finish_ne_panic {x : R St} (h : x ≠ .panic) : finish x ≠ .panic := by
   cases x <;> simp_all [finish]
 
+theorem finish_ne_hang {x : R St} (h : x ≠ .hang) : finish x ≠ .hang := by
+  cases x <;> simp_all [finish]
+
+theorem tokenizeWith_no_panic (rec : Option Rec) (fs : FS)
+    (hrec : ∀ g, rec = some g → ∀ f i d, g f i d ≠ .panic) (fn : Filename) (fid : Nat) (b : Bytes) :
+    tokenizeWith rec fs fn fid b ≠ .panic := by
+  rw [tokenizeWith_walk]
+  cases h : Lex.tokenize b with
+  | ok lt => exact finish_ne_panic (walk_no_panic _ _ _ _ hrec _ _)
+  | err k l => simp
+  | panic => exact absurd h (Lex.lex_no_panic b)
+  | hang => simp
+
+theorem tokenizeWith_no_hang (rec : Option Rec) (fs : FS)
+    (hrec : ∀ g, rec = some g → ∀ f i d, g f i d ≠ .hang) (fn : Filename) (fid : Nat) (b : Bytes) :
+    tokenizeWith rec fs fn fid b ≠ .hang := by
+  rw [tokenizeWith_walk]
+  cases h : Lex.tokenize b with
+  | ok lt => exact finish_ne_hang (walk_no_hang _ _ _ _ hrec _ _)
+  | err k l => simp
+  | panic => simp
+  | hang => exact absurd h (Lex.lex_no_hang b)
+
 theorem tokenize_no_panic (fs : FS) : ∀ (n : Nat) (fn : Filename) (fid : Nat) (b : Bytes),
     tokenize fs n fn fid b ≠ .panic := by
   intro n
   induction n with
-  | zero => intro fn fid b; simp [tokenize]
+  | zero => intro fn fid b; exact tokenizeWith_no_panic none fs (by intro g hg; cases hg) fn fid b
   | succ n ih =>
     intro fn fid b
-    rw [tokenize_succ]
-    cases h : Lex.tokenize b with
-    | ok lt => exact finish_ne_panic (walk_no_panic _ _ _ _ ih _ _)
-    | err k l => simp
-    | panic => exact absurd h (Lex.lex_no_panic b)
-    | hang => simp
+    exact tokenizeWith_no_panic (some (tokenize fs n)) fs (by intro g hg; cases hg; exact ih) fn fid b
+
+theorem tokenize_no_hang (fs : FS) : ∀ (n : Nat) (fn : Filename) (fid : Nat) (b : Bytes),
+    tokenize fs n fn fid b ≠ .hang := by
+  intro n
+  induction n with
+  | zero => intro fn fid b; exact tokenizeWith_no_hang none fs (by intro g hg; cases hg) fn fid b
+  | succ n ih =>
+    intro fn fid b
+    exact tokenizeWith_no_hang (some (tokenize fs n)) fs (by intro g hg; cases hg; exact ih) fn fid b
 
 /-! ### errors -/
 
 /-- a prefix that resolves can be walked first -/
-theorem walk_append (rec : Filename → Nat → Bytes → Res) (fs : FS) (fn : Filename) (b : Bytes)
+theorem walk_append (rec : Option Rec) (fs : FS) (fn : Filename) (b : Bytes)
     (pre rest : List Tok) (st st1 : St) (h : walk rec fs fn b pre st = .ok st1) :
     walk rec fs fn b (pre ++ rest) st = walk rec fs fn b rest st1 := by
   fun_induction walk rec fs fn b pre st generalizing st1 with
   | case1 st => simp at h; subst h; rfl
   | case2 t st hinc => cases h
-  | case3 t st hinc nm ts' hn data hload r hrec ih =>
-    rw [List.cons_append, List.cons_append, walk_inc_name _ _ _ _ _ _ _ _ hinc hn, hload]
+  | case3 t st hinc nm ts' hn hf => cases h
+  | case4 t st hinc nm ts' hn f hf data hload r hrec ih =>
+    subst hf
+    rw [List.cons_append, List.cons_append, walk_inc_some _ _ _ _ _ _ _ _ hinc hn, hload]
     simp only [hrec]
     exact ih st1 h
-  | case4 t st hinc nm ts' hn data hload e hrec => cases h
-  | case5 t st hinc nm ts' hn data hload hrec => cases h
-  | case6 t st hinc nm ts' hn data hload hrec => cases h
-  | case7 t st hinc nm ts' hn hload => cases h
-  | case8 t st hinc nm ts' hn => cases h
-  | case9 t ts st hinc ih =>
+  | case5 t st hinc nm ts' hn f hf data hload e hrec => cases h
+  | case6 t st hinc nm ts' hn f hf data hload hrec => cases h
+  | case7 t st hinc nm ts' hn f hf data hload hrec => cases h
+  | case8 t st hinc nm ts' hn f hf hload => cases h
+  | case9 t st hinc nm ts' hn => cases h
+  | case10 t ts st hinc ih =>
     rw [List.cons_append, walk_cons_copy _ _ _ _ _ _ _ hinc]
     exact ih st1 h
 
 
-theorem walk_all_copy (rec : Filename → Nat → Bytes → Res) (fs : FS) (fn : Filename) (b : Bytes)
+theorem walk_all_copy (rec : Option Rec) (fs : FS) (fn : Filename) (b : Bytes)
     (pre : List Tok) (st : St) (h : ∀ t ∈ pre, t.ttype ≠ .include) :
     walk rec fs fn b pre st = .ok (st.push pre) := by
   have := walk_noInc rec fs fn b pre [] st h
   rw [List.append_nil, walk_nil] at this
   exact this
 
-/-- the part of `tokenize` in front of a directive has been spliced without an error -/
+/-- the part of `tokenize` (depth budget `n`) in front of a directive has been spliced without an error -/
 def Resolves (fs : FS) (n : Nat) (fn : Filename) (fid : Nat) (b : Bytes) (pre : List Lex.Token) (st1 : St) : Prop :=
-  walk (tokenize fs n) fs fn b (pre.map (Tok.ofLex fid)) (St.init fn fid b) = .ok st1
+  walk (deeper fs n) fs fn b (pre.map (Tok.ofLex fid)) (St.init fn fid b) = .ok st1
 
 theorem resolves_of_noInc (fs : FS) (n : Nat) (fn : Filename) (fid : Nat) (b : Bytes) (pre : List Lex.Token)
     (h : ∀ t ∈ pre, t.ttype ≠ .include) :
@@ -800,37 +886,78 @@ theorem resolve_ofLex (fs : FS) (fn : Filename) (b : Bytes) (fid : Nat) (nm : Le
 theorem tokenize_at_directive (fs : FS) (n : Nat) (fn : Filename) (fid : Nat) (b : Bytes)
     (pre post : List Lex.Token) (inc : Lex.Token) (st1 : St)
     (hlex : Lex.tokenize b = .ok (pre ++ inc :: post)) (hpre : Resolves fs n fn fid b pre st1) :
-    tokenize fs (n + 1) fn fid b =
-      finish (walk (tokenize fs n) fs fn b ((inc :: post).map (Tok.ofLex fid)) st1) := by
+    tokenize fs n fn fid b =
+      finish (walk (deeper fs n) fs fn b ((inc :: post).map (Tok.ofLex fid)) st1) := by
   rw [tokenize_of_lex fs n fn fid b _ hlex, List.map_append, walk_append _ _ _ _ _ _ _ _ hpre]
 
 /-- a directive whose file cannot be loaded: `IncludeFileError` naming the directive (all directives in front of
-    it having been resolved) -/
+    it having been resolved); for every depth budget -/
 theorem missing_include (fs : FS) (n : Nat) (fn : Filename) (fid : Nat) (b : Bytes)
     (pre post : List Lex.Token) (inc nm : Lex.Token) (st1 : St)
     (hlex : Lex.tokenize b = .ok (pre ++ inc :: nm :: post))
     (hinc : inc.ttype = .include) (hnm : nm.ttype = .string ∨ nm.ttype = .identifier)
     (hpre : Resolves fs n fn fid b pre st1)
     (hmiss : load fs (target fs fn b nm).full = none) :
-    tokenize fs (n + 1) fn fid b =
+    tokenize fs n fn fid b =
       .err (.IncludeFileError fn.display nm.line (nameAt b nm.startpos nm.endpos)) := by
   rw [tokenize_at_directive fs n fn fid b pre _ inc st1 hlex hpre]
   simp only [List.map_cons]
   rw [walk_inc_name _ _ _ _ _ _ _ _ (by exact hinc) (by exact hnm), resolve_ofLex, hmiss]
+  cases deeper fs n <;> rfl
+
+/-- a directive with a usable name at depth budget `0` (`depth = MAX_INCLUDE_DEPTH`): the same `IncludeFileError`,
+    whether the file exists or not -/
+theorem depth_limit (fs : FS) (fn : Filename) (fid : Nat) (b : Bytes)
+    (pre post : List Lex.Token) (inc nm : Lex.Token) (st1 : St)
+    (hlex : Lex.tokenize b = .ok (pre ++ inc :: nm :: post))
+    (hinc : inc.ttype = .include) (hnm : nm.ttype = .string ∨ nm.ttype = .identifier)
+    (hpre : Resolves fs 0 fn fid b pre st1) :
+    tokenize fs 0 fn fid b =
+      .err (.IncludeFileError fn.display nm.line (nameAt b nm.startpos nm.endpos)) := by
+  rw [tokenize_at_directive fs 0 fn fid b pre _ inc st1 hlex hpre]
+  simp only [List.map_cons, deeper]
+  rw [walk_inc_limit _ _ _ _ _ _ _ (by exact hinc) (by exact hnm)]
   rfl
+
+/-- at depth budget `0` a prefix resolves only if it contains no directive -/
+theorem resolves_zero (fs : FS) (fn : Filename) (fid : Nat) (b : Bytes) (pre : List Lex.Token) (st1 : St)
+    (h : Resolves fs 0 fn fid b pre st1) : ∀ t ∈ pre, t.ttype ≠ .include := by
+  unfold Resolves at h
+  simp only [deeper] at h
+  generalize St.init fn fid b = st at h
+  induction pre generalizing st with
+  | nil => intro t ht; cases ht
+  | cons a pre ih =>
+    by_cases ha : a.ttype = .include
+    · exfalso
+      cases pre with
+      | nil =>
+        simp only [List.map_cons, List.map_nil] at h
+        rw [walk_inc_nil _ _ _ _ _ _ (by exact ha)] at h; cases h
+      | cons nm pre' =>
+        simp only [List.map_cons] at h
+        by_cases hn : isName (Tok.ofLex fid nm)
+        · rw [walk_inc_limit _ _ _ _ _ _ _ (by exact ha) hn] at h; cases h
+        · rw [walk_inc_notName _ _ _ _ _ _ _ _ (by exact ha) hn] at h; cases h
+    · simp only [List.map_cons] at h
+      rw [walk_cons_copy _ _ _ _ _ _ _ (by exact ha)] at h
+      intro t ht
+      rcases List.mem_cons.1 ht with ht | ht
+      · subst ht; exact ha
+      · exact ih _ h t ht
 
 /-- an error inside an included file is the error of the including file (`?`) -/
 theorem include_error_propagates (fs : FS) (n : Nat) (fn : Filename) (fid : Nat) (b : Bytes)
     (pre post : List Lex.Token) (inc nm : Lex.Token) (st1 : St) (data : Bytes) (e : Err)
     (hlex : Lex.tokenize b = .ok (pre ++ inc :: nm :: post))
     (hinc : inc.ttype = .include) (hnm : nm.ttype = .string ∨ nm.ttype = .identifier)
-    (hpre : Resolves fs n fn fid b pre st1)
+    (hpre : Resolves fs (n + 1) fn fid b pre st1)
     (hload : load fs (target fs fn b nm).full = some data)
     (herr : tokenize fs n (target fs fn b nm) st1.nextFileid data = .err e) :
     tokenize fs (n + 1) fn fid b = .err e := by
-  rw [tokenize_at_directive fs n fn fid b pre _ inc st1 hlex hpre]
-  simp only [List.map_cons]
-  rw [walk_inc_name _ _ _ _ _ _ _ _ (by exact hinc) (by exact hnm), resolve_ofLex, hload]
+  rw [tokenize_at_directive fs (n + 1) fn fid b pre _ inc st1 hlex hpre]
+  simp only [List.map_cons, deeper]
+  rw [walk_inc_some _ _ _ _ _ _ _ _ (by exact hinc) (by exact hnm), resolve_ofLex, hload]
   simp only [herr]
   rfl
 
@@ -841,7 +968,7 @@ theorem incomplete_include (fs : FS) (n : Nat) (fn : Filename) (fid : Nat) (b : 
     (hinc : inc.ttype = .include)
     (hpost : post = [] ∨ ∃ x rest, post = x :: rest ∧ ¬ (x.ttype = .string ∨ x.ttype = .identifier))
     (hpre : Resolves fs n fn fid b pre st1) :
-    tokenize fs (n + 1) fn fid b = .err (.IncompleteIncludeError fn.display inc.line) := by
+    tokenize fs n fn fid b = .err (.IncompleteIncludeError fn.display inc.line) := by
   rw [tokenize_at_directive fs n fn fid b pre _ inc st1 hlex hpre]
   rcases hpost with h | ⟨x, rest, h, hx⟩
   · subst h
@@ -851,19 +978,20 @@ theorem incomplete_include (fs : FS) (n : Nat) (fn : Filename) (fid : Nat) (b : 
     simp only [List.map_cons]
     rw [walk_inc_notName _ _ _ _ _ _ _ _ (by exact hinc) (by exact hx)]; rfl
 
-/-- a directive that can be reached through a chain of resolvable includes names a file that does not exist -/
+/-- a directive that can be reached through a chain of resolvable includes names a file that does not exist
+    (`n`: depth budget of the file `fn`) -/
 inductive ReachesMissing (fs : FS) : Nat → Filename → Nat → Bytes → Err → Prop
   | here (n : Nat) (fn : Filename) (fid : Nat) (b : Bytes) (pre post : List Lex.Token) (inc nm : Lex.Token) (st1 : St) :
       Lex.tokenize b = .ok (pre ++ inc :: nm :: post) →
       inc.ttype = .include → (nm.ttype = .string ∨ nm.ttype = .identifier) →
       Resolves fs n fn fid b pre st1 →
       load fs (target fs fn b nm).full = none →
-      ReachesMissing fs (n + 1) fn fid b (.IncludeFileError fn.display nm.line (nameAt b nm.startpos nm.endpos))
+      ReachesMissing fs n fn fid b (.IncludeFileError fn.display nm.line (nameAt b nm.startpos nm.endpos))
   | deeper (n : Nat) (fn : Filename) (fid : Nat) (b : Bytes) (pre post : List Lex.Token) (inc nm : Lex.Token) (st1 : St)
       (data : Bytes) (e : Err) :
       Lex.tokenize b = .ok (pre ++ inc :: nm :: post) →
       inc.ttype = .include → (nm.ttype = .string ∨ nm.ttype = .identifier) →
-      Resolves fs n fn fid b pre st1 →
+      Resolves fs (n + 1) fn fid b pre st1 →
       load fs (target fs fn b nm).full = some data →
       ReachesMissing fs n (target fs fn b nm) st1.nextFileid data e →
       ReachesMissing fs (n + 1) fn fid b e
@@ -882,6 +1010,37 @@ theorem reachesMissing_is_includeFileError (fs : FS) (n : Nat) (fn : Filename) (
   | here => exact ⟨_, _, _, rfl⟩
   | deeper _ _ _ _ _ _ _ _ _ _ _ _ _ _ _ _ _ ih => exact ih
 
+/-- a chain of `n` nested resolvable includes below the file `fn` (depth budget `n`) ends at a directive with a usable
+    name at depth budget `0`: the depth limit is reached -/
+inductive ReachesLimit (fs : FS) : Nat → Filename → Nat → Bytes → Err → Prop
+  | here (fn : Filename) (fid : Nat) (b : Bytes) (pre post : List Lex.Token) (inc nm : Lex.Token) (st1 : St) :
+      Lex.tokenize b = .ok (pre ++ inc :: nm :: post) →
+      inc.ttype = .include → (nm.ttype = .string ∨ nm.ttype = .identifier) →
+      Resolves fs 0 fn fid b pre st1 →
+      ReachesLimit fs 0 fn fid b (.IncludeFileError fn.display nm.line (nameAt b nm.startpos nm.endpos))
+  | deeper (n : Nat) (fn : Filename) (fid : Nat) (b : Bytes) (pre post : List Lex.Token) (inc nm : Lex.Token) (st1 : St)
+      (data : Bytes) (e : Err) :
+      Lex.tokenize b = .ok (pre ++ inc :: nm :: post) →
+      inc.ttype = .include → (nm.ttype = .string ∨ nm.ttype = .identifier) →
+      Resolves fs (n + 1) fn fid b pre st1 →
+      load fs (target fs fn b nm).full = some data →
+      ReachesLimit fs n (target fs fn b nm) st1.nextFileid data e →
+      ReachesLimit fs (n + 1) fn fid b e
+
+theorem reachesLimit_err (fs : FS) (n : Nat) (fn : Filename) (fid : Nat) (b : Bytes) (e : Err)
+    (h : ReachesLimit fs n fn fid b e) : tokenize fs n fn fid b = .err e := by
+  induction h with
+  | here fn fid b pre post inc nm st1 hlex hinc hnm hpre =>
+    exact depth_limit fs fn fid b pre post inc nm st1 hlex hinc hnm hpre
+  | deeper n fn fid b pre post inc nm st1 data e hlex hinc hnm hpre hload _ ih =>
+    exact include_error_propagates fs n fn fid b pre post inc nm st1 data e hlex hinc hnm hpre hload ih
+
+theorem reachesLimit_is_includeFileError (fs : FS) (n : Nat) (fn : Filename) (fid : Nat) (b : Bytes) (e : Err)
+    (h : ReachesLimit fs n fn fid b e) : ∃ f line incname, e = .IncludeFileError f line incname := by
+  induction h with
+  | here => exact ⟨_, _, _, rfl⟩
+  | deeper _ _ _ _ _ _ _ _ _ _ _ _ _ _ _ _ _ ih => exact ih
+
 
 /-! ### a file that includes itself -/
 
@@ -895,34 +1054,76 @@ theorem selfInc_lex : Lex.tokenize selfInc = .ok
     [{ ttype := .include, startpos := 0, endpos := 8, line := 1 },
      { ttype := .string, startpos := 9, endpos := 19, line := 1 }] := by decide +kernel
 
+theorem selfInc_name : nameAt selfInc 9 19 = mainName := by decide +kernel
+
 theorem selfInc_target (fs : FS) (hfs : fs mainName = some selfInc) (fn : Filename) (hfn : fn.full = mainName) :
     target fs fn selfInc { ttype := .string, startpos := 9, endpos := 19, line := 1 } =
       { full := mainName, display := mainName } := by
-  have hname : nameAt selfInc 9 19 = mainName := by decide +kernel
+  have hname : nameAt selfInc 9 19 = mainName := selfInc_name
   have hnorm : normalize mainName = mainName := by decide +kernel
   have habs : isAbsolute mainName = false := by decide +kernel
   have hpar : parent mainName = some [] := by decide +kernel
   simp only [target, hname, hfn, makeIncludeFilename, hnorm, habs, hpar, join, FS.exists]
   simp [hfs]
 
-theorem self_include_hangs_aux (fs : FS) (hfs : fs mainName = some selfInc) :
-    ∀ (n : Nat) (fn : Filename) (fid : Nat), fn.full = mainName → tokenize fs n fn fid selfInc = .hang := by
+/-- the self-including file under the depth budget `n`: the error of the innermost level — the file reached after
+    `n` nested directives, whose own directive is refused — handed up unchanged; that level's file name is the name
+    written in the directive (`main.a2l`) unless it is the outermost level (`n = 0`) -/
+theorem self_include_aux (fs : FS) (hfs : fs mainName = some selfInc) :
+    ∀ (n : Nat) (fn : Filename) (fid : Nat), fn.full = mainName →
+      tokenize fs n fn fid selfInc =
+        .err (.IncludeFileError (if n = 0 then fn.display else mainName) 1 mainName) := by
   intro n
   induction n with
-  | zero => intro fn fid _; rfl
+  | zero =>
+    intro fn fid _
+    rw [tokenize_of_lex fs 0 fn fid selfInc _ selfInc_lex]
+    simp only [List.map_cons, List.map_nil, deeper]
+    rw [walk_inc_limit _ _ _ _ _ _ _ rfl (.inl rfl)]
+    simp only [finish, nameOf, Tok.ofLex, selfInc_name, if_true]
   | succ n ih =>
     intro fn fid hfn
-    rw [tokenize_of_lex fs n fn fid selfInc _ selfInc_lex]
-    simp only [List.map_cons, List.map_nil]
-    rw [walk_inc_name _ _ _ _ _ _ _ _ rfl (.inl rfl), resolve_ofLex, selfInc_target fs hfs fn hfn]
+    rw [tokenize_of_lex fs (n + 1) fn fid selfInc _ selfInc_lex]
+    simp only [List.map_cons, List.map_nil, deeper]
+    rw [walk_inc_some _ _ _ _ _ _ _ _ rfl (.inl rfl), resolve_ofLex, selfInc_target fs hfs fn hfn]
     have hload : load fs mainName = some selfInc := by
       have : stripBom selfInc = selfInc := by decide +kernel
       simp [load, hfs, this]
     rw [hload]
     simp only
     rw [ih { full := mainName, display := mainName } _ rfl]
-    rfl
+    simp [finish]
 
+theorem selfInc_load (fs : FS) (hfs : fs mainName = some selfInc) : load fs mainName = some selfInc := by
+  have : stripBom selfInc = selfInc := by decide +kernel
+  simp [load, hfs, this]
+
+theorem resolves_nil (fs : FS) (n : Nat) (fn : Filename) (fid : Nat) (b : Bytes) :
+    Resolves fs n fn fid b [] (St.init fn fid b) := by
+  unfold Resolves; exact walk_nil _ _ _ _ _
+
+/-- the error of the self-including file is that of the depth limit -/
+theorem self_include_limit_aux (fs : FS) (hfs : fs mainName = some selfInc) :
+    ∀ (n : Nat) (fn : Filename) (fid : Nat), fn.full = mainName →
+      ReachesLimit fs n fn fid selfInc (.IncludeFileError (if n = 0 then fn.display else mainName) 1 mainName) := by
+  intro n
+  induction n with
+  | zero =>
+    intro fn fid _
+    have := ReachesLimit.here (fs := fs) fn fid selfInc [] [] _ _ _ selfInc_lex rfl (.inl rfl)
+      (resolves_nil fs 0 fn fid selfInc)
+    rw [selfInc_name] at this
+    simpa using this
+  | succ n ih =>
+    intro fn fid hfn
+    have h1 : ReachesLimit fs n { full := mainName, display := mainName } (St.init fn fid selfInc).nextFileid selfInc
+        (.IncludeFileError mainName 1 mainName) := by
+      simpa using ih { full := mainName, display := mainName } (St.init fn fid selfInc).nextFileid rfl
+    rw [← selfInc_target fs hfs fn hfn] at h1
+    have := ReachesLimit.deeper (fs := fs) n fn fid selfInc [] [] _ _ _ selfInc _ selfInc_lex rfl (.inl rfl)
+      (resolves_nil fs (n + 1) fn fid selfInc)
+      (by rw [selfInc_target fs hfs fn hfn]; exact selfInc_load fs hfs) h1
+    simpa using this
 
 /-! ### the specification: inline expansion -/
 
@@ -935,8 +1136,8 @@ theorem target_full (fs : FS) (fn : Filename) (b : Bytes) (nm : Lex.Token) :
 
 /-- **the specification** on token lists: walk the list; `Include` followed by a String/Identifier token `nm` is
     replaced by the expansion (`rec`) of the file that `nm` names; every other token is copied as (kind, text).
-    `none`: a directive cannot be resolved -/
-def expandToks (rec : Path → Bytes → Option (List (TokType × Bytes))) (fs : FS) (base : Path) (b : Bytes) :
+    `rec = none`: the depth limit is reached.  Result `none`: a directive cannot be resolved -/
+def expandToks (rec : Option (Path → Bytes → Option (List (TokType × Bytes)))) (fs : FS) (base : Path) (b : Bytes) :
     List Lex.Token → Option (List (TokType × Bytes))
   | [] => some []
   | t :: ts =>
@@ -945,25 +1146,31 @@ def expandToks (rec : Path → Bytes → Option (List (TokType × Bytes))) (fs :
       | [] => none
       | nm :: ts' =>
         if nm.ttype = .string ∨ nm.ttype = .identifier then
-          match load fs (targetPath fs base b nm) with
-          | some data =>
-            match rec (targetPath fs base b nm) data, expandToks rec fs base b ts' with
-            | some inner, some out => some (inner ++ out)
-            | _, _ => none
+          match rec with
           | none => none
+          | some f =>
+            match load fs (targetPath fs base b nm) with
+            | some data =>
+              match f (targetPath fs base b nm) data, expandToks rec fs base b ts' with
+              | some inner, some out => some (inner ++ out)
+              | _, _ => none
+            | none => none
         else none
     else
       match expandToks rec fs base b ts with
       | some out => some ((t.ttype, b.extract t.startpos t.endpos) :: out)
       | none => none
 
-/-- the flattened token stream of the file `base` with content `b` (include depth below `n`) -/
+def expandWith (rec : Option (Path → Bytes → Option (List (TokType × Bytes)))) (fs : FS) (base : Path) (b : Bytes) :
+    Option (List (TokType × Bytes)) :=
+  match Lex.tokenize b with
+  | .ok lt => expandToks rec fs base b lt
+  | _ => none
+
+/-- the flattened token stream of the file `base` with content `b`, at most `n` levels of includes below it -/
 def expand (fs : FS) : Nat → Path → Bytes → Option (List (TokType × Bytes))
-  | 0, _, _ => none
-  | n + 1, base, b =>
-    match Lex.tokenize b with
-    | .ok lt => expandToks (expand fs n) fs base b lt
-    | _ => none
+  | 0, base, b => expandWith none fs base b
+  | n + 1, base, b => expandWith (some (expand fs n)) fs base b
 
 /-- (kind, file id, text) -/
 abbrev Item := TokType × Nat × Bytes
@@ -971,7 +1178,7 @@ abbrev Item := TokType × Nat × Bytes
 /-- the specification with file ids: the file being expanded has id `fid`, `next` is the next free id; every
     included file occurrence takes the next free id, the files it includes take the following ones.
     Returns the items and the next free id. -/
-def expandIToks (rec : Path → Nat → Bytes → Option (List Item × Nat)) (fs : FS) (base : Path) (b : Bytes)
+def expandIToks (rec : Option (Path → Nat → Bytes → Option (List Item × Nat))) (fs : FS) (base : Path) (b : Bytes)
     (fid : Nat) : List Lex.Token → Nat → Option (List Item × Nat)
   | [], next => some ([], next)
   | t :: ts, next =>
@@ -980,71 +1187,98 @@ def expandIToks (rec : Path → Nat → Bytes → Option (List Item × Nat)) (fs
       | [] => none
       | nm :: ts' =>
         if nm.ttype = .string ∨ nm.ttype = .identifier then
-          match load fs (targetPath fs base b nm) with
-          | some data =>
-            match rec (targetPath fs base b nm) next data with
-            | some (inner, next1) =>
-              match expandIToks rec fs base b fid ts' next1 with
-              | some (out, next2) => some (inner ++ out, next2)
+          match rec with
+          | none => none
+          | some f =>
+            match load fs (targetPath fs base b nm) with
+            | some data =>
+              match f (targetPath fs base b nm) next data with
+              | some (inner, next1) =>
+                match expandIToks rec fs base b fid ts' next1 with
+                | some (out, next2) => some (inner ++ out, next2)
+                | none => none
               | none => none
             | none => none
-          | none => none
         else none
     else
       match expandIToks rec fs base b fid ts next with
       | some (out, next1) => some ((t.ttype, fid, b.extract t.startpos t.endpos) :: out, next1)
       | none => none
 
+def expandIWith (rec : Option (Path → Nat → Bytes → Option (List Item × Nat))) (fs : FS) (base : Path) (fid : Nat)
+    (b : Bytes) : Option (List Item × Nat) :=
+  match Lex.tokenize b with
+  | .ok lt => expandIToks rec fs base b fid lt (fid + 1)
+  | _ => none
+
 def expandI (fs : FS) : Nat → Path → Nat → Bytes → Option (List Item × Nat)
-  | 0, _, _, _ => none
-  | n + 1, base, fid, b =>
-    match Lex.tokenize b with
-    | .ok lt => expandIToks (expandI fs n) fs base b fid lt (fid + 1)
-    | _ => none
+  | 0, base, fid, b => expandIWith none fs base fid b
+  | n + 1, base, fid, b => expandIWith (some (expandI fs n)) fs base fid b
 
 /-- forget the file ids -/
 def Item.kt (i : Item) : TokType × Bytes := (i.1, i.2.2)
 
-theorem expandIToks_kt (recI : Path → Nat → Bytes → Option (List Item × Nat))
-    (recS : Path → Bytes → Option (List (TokType × Bytes))) (fs : FS) (base : Path) (b : Bytes) (fid : Nat)
-    (hrec : ∀ p i d res, recI p i d = some res → recS p d = some (res.1.map Item.kt))
+/-- the relation between the recursive calls of the two specifications -/
+def KtRel (recI : Option (Path → Nat → Bytes → Option (List Item × Nat)))
+    (recS : Option (Path → Bytes → Option (List (TokType × Bytes)))) : Prop :=
+  ∀ g, recI = some g → ∃ g', recS = some g' ∧ ∀ p i d res, g p i d = some res → g' p d = some (res.1.map Item.kt)
+
+theorem expandIToks_kt (recI : Option (Path → Nat → Bytes → Option (List Item × Nat)))
+    (recS : Option (Path → Bytes → Option (List (TokType × Bytes)))) (fs : FS) (base : Path) (b : Bytes) (fid : Nat)
+    (hrec : KtRel recI recS)
     (lt : List Lex.Token) (next : Nat) (res : List Item × Nat)
     (h : expandIToks recI fs base b fid lt next = some res) :
     expandToks recS fs base b lt = some (res.1.map Item.kt) := by
   fun_induction expandIToks recI fs base b fid lt next generalizing res with
   | case1 next => cases h; rfl
   | case2 t next hinc => cases h
-  | case3 t next hinc nm ts' hn data hload inner next1 hrec1 out next2 hout ih =>
+  | case3 t next hinc nm ts' hn hg => cases h
+  | case4 t next hinc nm ts' hn g hg data hload inner next1 hrec1 out next2 hout ih =>
+    obtain ⟨g', hg', hgg⟩ := hrec g hg
+    subst hg hg'
+    rw [hout] at h
     cases h
     rw [expandToks.eq_def]
-    simp only [if_pos hinc, if_pos hn, hload, hrec _ _ _ _ hrec1, ih _ hout, List.map_append]
-  | case4 t next hinc nm ts' hn data hload inner next1 hrec1 hout ih => cases h
-  | case5 t next hinc nm ts' hn data hload hrec1 => cases h
-  | case6 t next hinc nm ts' hn hload => cases h
-  | case7 t next hinc nm ts' hn => cases h
-  | case8 t ts next hinc out next1 hout ih =>
+    simp only [if_pos hinc, if_pos hn, hload, hgg _ _ _ _ hrec1, ih _ hout, List.map_append]
+  | case5 t next hinc nm ts' hn g hg data hload inner next1 hrec1 hout ih =>
+    subst hg
+    rw [hout] at h
+    cases h
+  | case6 t next hinc nm ts' hn g hg data hload hrec1 => cases h
+  | case7 t next hinc nm ts' hn g hg hload => cases h
+  | case8 t next hinc nm ts' hn => cases h
+  | case9 t ts next hinc out next1 hout ih =>
     cases h
     rw [expandToks.eq_def]
     simp only [if_neg hinc, ih _ hout]
     rfl
-  | case9 t ts next hinc hout ih => cases h
+  | case10 t ts next hinc hout ih => cases h
+
+theorem expandIWith_kt (recI : Option (Path → Nat → Bytes → Option (List Item × Nat)))
+    (recS : Option (Path → Bytes → Option (List (TokType × Bytes)))) (fs : FS) (hrec : KtRel recI recS)
+    (base : Path) (fid : Nat) (b : Bytes) (res : List Item × Nat)
+    (h : expandIWith recI fs base fid b = some res) : expandWith recS fs base b = some (res.1.map Item.kt) := by
+  rw [expandIWith] at h
+  rw [expandWith]
+  cases hl : Lex.tokenize b with
+  | ok lt =>
+    rw [hl] at h
+    exact expandIToks_kt _ _ fs base b fid hrec lt _ res h
+  | err k l => rw [hl] at h; cases h
+  | panic => rw [hl] at h; cases h
+  | hang => rw [hl] at h; cases h
 
 theorem expandI_kt (fs : FS) : ∀ (n : Nat) (base : Path) (fid : Nat) (b : Bytes) (res : List Item × Nat),
     expandI fs n base fid b = some res → expand fs n base b = some (res.1.map Item.kt) := by
   intro n
   induction n with
-  | zero => intro base fid b res h; cases h
+  | zero =>
+    intro base fid b res h
+    exact expandIWith_kt none none fs (by intro g hg; cases hg) base fid b res h
   | succ n ih =>
     intro base fid b res h
-    rw [expandI] at h
-    rw [expand]
-    cases hl : Lex.tokenize b with
-    | ok lt =>
-      rw [hl] at h
-      exact expandIToks_kt _ _ fs base b fid ih lt _ res h
-    | err k l => rw [hl] at h; cases h
-    | panic => rw [hl] at h; cases h
-    | hang => rw [hl] at h; cases h
+    exact expandIWith_kt (some (expandI fs n)) (some (expand fs n)) fs
+      (by intro g hg; cases hg; exact ⟨_, rfl, ih⟩) base fid b res h
 
 
 /-! ### the model computes the expansion -/
@@ -1116,10 +1350,11 @@ theorem StInv.pos {fn : Filename} {fid : Nat} {b : Bytes} {st : St} (h : StInv f
   | nil => rw [hf] at this; simp at this
   | cons a l => simp
 
-/-- the recursive call computes the expansion of the included file -/
-def Sim (recM : Filename → Nat → Bytes → Res) (recS : Path → Nat → Bytes → Option (List Item × Nat)) : Prop :=
-  ∀ fn fid b r, recM fn fid b = .ok r →
-    ResOk fn fid b r ∧ recS fn.full fid b = some (view3 fid r.filedata r.tokens, fid + r.filedata.length)
+/-- the recursive call computes the expansion of the included file (and both stop at the same depth) -/
+def Sim (recM : Option Rec) (recS : Option (Path → Nat → Bytes → Option (List Item × Nat))) : Prop :=
+  ∀ g, recM = some g → ∃ g', recS = some g' ∧
+    ∀ fn fid b r, g fn fid b = .ok r →
+      ResOk fn fid b r ∧ g' fn.full fid b = some (view3 fid r.filedata r.tokens, fid + r.filedata.length)
 
 theorem StInv.add {fn : Filename} {fid : Nat} {b : Bytes} {st : St} (h : StInv fn fid b st)
     {fn' : Filename} {b' : Bytes} {r : TokenResult} (hr : ResOk fn' st.nextFileid b' r) :
@@ -1166,7 +1401,7 @@ theorem StInv.pushOwn {fn : Filename} {fid : Nat} {b : Bytes} {st : St} (h : StI
     · exact h.noInc t' ht'
     · subst ht'; exact ht
 
-theorem walk_sim (recM : Filename → Nat → Bytes → Res) (recS : Path → Nat → Bytes → Option (List Item × Nat))
+theorem walk_sim (recM : Option Rec) (recS : Option (Path → Nat → Bytes → Option (List Item × Nat)))
     (hsim : Sim recM recS) (fs : FS) (fn : Filename) (fid : Nat) (b : Bytes) :
     ∀ (k : Nat) (lt : List Lex.Token) (st st' : St), lt.length = k → StInv fn fid b st →
       walk recM fs fn b (lt.map (Tok.ofLex fid)) st = .ok st' →
@@ -1193,19 +1428,25 @@ theorem walk_sim (recM : Filename → Nat → Bytes → Res) (recS : Path → Na
           simp only [List.map_cons] at h
           by_cases hn : nm.ttype = .string ∨ nm.ttype = .identifier
           · rw [walk_inc_name _ _ _ _ _ _ _ _ (by exact hinc) (by exact hn), resolve_ofLex] at h
+            cases hM : recM with
+            | none => rw [hM] at h; cases h
+            | some g =>
+            obtain ⟨g', hg', hsim'⟩ := hsim g hM
+            subst hM hg'
+            simp only at h
             cases hload : load fs (target fs fn b nm).full with
             | none => rw [hload] at h; cases h
             | some data =>
               rw [hload] at h
               simp only at h
-              cases hrec : recM (target fs fn b nm) st.nextFileid data with
+              cases hrec : g (target fs fn b nm) st.nextFileid data with
               | err e => rw [hrec] at h; cases h
               | panic => rw [hrec] at h; cases h
               | hang => rw [hrec] at h; cases h
               | ok r =>
                 rw [hrec] at h
                 simp only at h
-                obtain ⟨hr, hspec⟩ := hsim _ _ _ _ hrec
+                obtain ⟨hr, hspec⟩ := hsim' _ _ _ _ hrec
                 have inv1 := inv.add hr
                 simp only [List.length_cons] at hk
                 obtain ⟨inv', ⟨out, hexp, hview⟩, hown⟩ :=
@@ -1273,7 +1514,38 @@ theorem finish_ok {x : R St} {r : TokenResult} (h : finish x = .ok r) :
   | panic => cases h
   | hang => cases h
 
-/-- a successful result: well-formed, equal to the expansion with file ids, own tokens carry the own id -/
+theorem tokenizeWith_sim (recM : Option Rec) (recS : Option (Path → Nat → Bytes → Option (List Item × Nat)))
+    (hsim : Sim recM recS) (fs : FS) (fn : Filename) (fid : Nat) (b : Bytes) (r : TokenResult)
+    (h : tokenizeWith recM fs fn fid b = .ok r) :
+    ResOk fn fid b r ∧
+    expandIWith recS fs fn.full fid b = some (view3 fid r.filedata r.tokens, fid + r.filedata.length) ∧
+    ∀ lt, Lex.tokenize b = .ok lt → r.tokens.filter (hasId fid) = (ownToks lt).map (Tok.ofLex fid) := by
+  rw [tokenizeWith_walk] at h
+  cases hl : Lex.tokenize b with
+  | err k l => rw [hl] at h; cases h
+  | panic => rw [hl] at h; cases h
+  | hang => rw [hl] at h; cases h
+  | ok lt =>
+    rw [hl] at h
+    simp only at h
+    obtain ⟨st', hw, hr⟩ := finish_ok h
+    obtain ⟨inv', ⟨out, hexp, hview⟩, hown⟩ :=
+      walk_sim _ _ hsim fs fn fid b lt.length lt _ st' rfl (StInv.init fn fid b) hw
+    subst hr
+    refine ⟨⟨inv'.names, inv'.first, inv'.firstName, inv'.range, inv'.noInc⟩, ?_, ?_⟩
+    · rw [expandIWith, hl]
+      simp only
+      have h1 : (St.init fn fid b).nextFileid = fid + 1 := rfl
+      rw [h1] at hexp
+      rw [hexp, hview, inv'.next]
+      simp [St.init, view3]
+    · intro lt' hlt'
+      cases hlt'
+      rw [hown]
+      simp [St.init]
+
+/-- a successful result: well-formed, equal to the expansion with file ids (same depth budget), own tokens carry
+    the own id -/
 theorem tokenize_sim (fs : FS) : ∀ (n : Nat) (fn : Filename) (fid : Nat) (b : Bytes) (r : TokenResult),
     tokenize fs n fn fid b = .ok r →
     ResOk fn fid b r ∧
@@ -1281,141 +1553,387 @@ theorem tokenize_sim (fs : FS) : ∀ (n : Nat) (fn : Filename) (fid : Nat) (b : 
     ∀ lt, Lex.tokenize b = .ok lt → r.tokens.filter (hasId fid) = (ownToks lt).map (Tok.ofLex fid) := by
   intro n
   induction n with
-  | zero => intro fn fid b r h; cases h
+  | zero =>
+    intro fn fid b r h
+    exact tokenizeWith_sim none none (by intro g hg; cases hg) fs fn fid b r h
   | succ n ih =>
     intro fn fid b r h
-    rw [tokenize_succ] at h
+    exact tokenizeWith_sim (some (tokenize fs n)) (some (expandI fs n))
+      (by intro g hg; cases hg; exact ⟨_, rfl, fun fn fid b r h => ⟨(ih fn fid b r h).1, (ih fn fid b r h).2.1⟩⟩)
+      fs fn fid b r h
+
+
+/-! ### the depth budget only matters for `IncludeFileError` -/
+
+/-- the recursive call under a larger budget agrees with the one under the smaller budget wherever the latter is not
+    an `IncludeFileError` -/
+def BudgetRel (recA recB : Option Rec) : Prop :=
+  ∀ gA, recA = some gA → ∃ gB, recB = some gB ∧
+    ∀ f i d, (∀ x l nm, gA f i d ≠ .err (.IncludeFileError x l nm)) → gB f i d = gA f i d
+
+theorem walk_mono (recA recB : Option Rec) (fs : FS) (fn : Filename) (b : Bytes)
+    (hrec : BudgetRel recA recB) (l : List Tok) (st : St)
+    (h : ∀ x ln nm, walk recA fs fn b l st ≠ .err (.IncludeFileError x ln nm)) :
+    walk recB fs fn b l st = walk recA fs fn b l st := by
+  fun_induction walk recA fs fn b l st with
+  | case1 st => simp [walk_nil]
+  | case2 t st hinc => rw [walk_inc_nil _ _ _ _ _ _ hinc]
+  | case3 t st hinc nm ts' hn hf => exact absurd rfl (h _ _ _)
+  | case4 t st hinc nm ts' hn f hf data hload r hr ih =>
+    obtain ⟨gB, hB, hAB⟩ := hrec f hf
+    subst hf hB
+    rw [walk_inc_some _ _ _ _ _ _ _ _ hinc hn, hload]
+    simp only
+    rw [hAB _ _ _ (by rw [hr]; intro x l nm hh; cases hh), hr]
+    exact ih h
+  | case5 t st hinc nm ts' hn f hf data hload e hr =>
+    obtain ⟨gB, hB, hAB⟩ := hrec f hf
+    subst hf hB
+    rw [walk_inc_some _ _ _ _ _ _ _ _ hinc hn, hload]
+    simp only
+    rw [hAB _ _ _ (by rw [hr]; intro x l nm hh; cases hh; exact h x l nm rfl), hr]
+  | case6 t st hinc nm ts' hn f hf data hload hr =>
+    obtain ⟨gB, hB, hAB⟩ := hrec f hf
+    subst hf hB
+    rw [walk_inc_some _ _ _ _ _ _ _ _ hinc hn, hload]
+    simp only
+    rw [hAB _ _ _ (by rw [hr]; intro x l nm hh; cases hh), hr]
+  | case7 t st hinc nm ts' hn f hf data hload hr =>
+    obtain ⟨gB, hB, hAB⟩ := hrec f hf
+    subst hf hB
+    rw [walk_inc_some _ _ _ _ _ _ _ _ hinc hn, hload]
+    simp only
+    rw [hAB _ _ _ (by rw [hr]; intro x l nm hh; cases hh), hr]
+  | case8 t st hinc nm ts' hn f hf hload => exact absurd rfl (h _ _ _)
+  | case9 t st hinc nm ts' hn => rw [walk_inc_notName _ _ _ _ _ _ _ _ hinc hn]
+  | case10 t ts st hinc ih =>
+    rw [walk_cons_copy _ _ _ _ _ _ _ hinc]
+    exact ih h
+
+theorem tokenizeWith_mono (recA recB : Option Rec) (hrec : BudgetRel recA recB) (fs : FS) (fn : Filename)
+    (fid : Nat) (b : Bytes) (h : ∀ x l nm, tokenizeWith recA fs fn fid b ≠ .err (.IncludeFileError x l nm)) :
+    tokenizeWith recB fs fn fid b = tokenizeWith recA fs fn fid b := by
+  rw [tokenizeWith_walk recA] at h ⊢
+  rw [tokenizeWith_walk recB]
+  cases hl : Lex.tokenize b with
+  | ok lt =>
+    rw [hl] at h
+    simp only at h ⊢
+    rw [walk_mono recA recB fs fn b hrec]
+    intro x l nm hw
+    exact h x l nm (by rw [hw]; rfl)
+  | err k l => rfl
+  | panic => rfl
+  | hang => rfl
+
+theorem tokenize_budget_succ (fs : FS) : ∀ (n : Nat) (fn : Filename) (fid : Nat) (b : Bytes),
+    (∀ x l nm, tokenize fs n fn fid b ≠ .err (.IncludeFileError x l nm)) →
+    tokenize fs (n + 1) fn fid b = tokenize fs n fn fid b := by
+  intro n
+  induction n with
+  | zero =>
+    intro fn fid b h
+    exact tokenizeWith_mono none (some (tokenize fs 0)) (by intro g hg; cases hg) fs fn fid b h
+  | succ n ih =>
+    intro fn fid b h
+    exact tokenizeWith_mono (some (tokenize fs n)) (some (tokenize fs (n + 1)))
+      (by intro g hg; cases hg; exact ⟨_, rfl, fun f i d hh => ih f i d hh⟩) fs fn fid b h
+
+/-- a result that is not an `IncludeFileError` is the same under every larger depth budget -/
+theorem tokenize_budget_mono (fs : FS) (n k : Nat) (fn : Filename) (fid : Nat) (b : Bytes)
+    (h : ∀ x l nm, tokenize fs n fn fid b ≠ .err (.IncludeFileError x l nm)) :
+    tokenize fs (n + k) fn fid b = tokenize fs n fn fid b := by
+  induction k with
+  | zero => rfl
+  | succ k ih =>
+    have : n + (k + 1) = (n + k) + 1 := by omega
+    rw [this, tokenize_budget_succ fs (n + k) fn fid b (by rw [ih]; exact h), ih]
+
+theorem deeper_mono (fs : FS) (n k : Nat) : BudgetRel (deeper fs n) (deeper fs (n + k)) := by
+  intro g hg
+  cases n with
+  | zero => cases hg
+  | succ m =>
+    cases hg
+    refine ⟨tokenize fs (m + k), ?_, fun f i d hh => tokenize_budget_mono fs m k f i d hh⟩
+    have : m + 1 + k = (m + k) + 1 := by omega
+    rw [this]; rfl
+
+theorem resolves_mono (fs : FS) (n k : Nat) (fn : Filename) (fid : Nat) (b : Bytes) (pre : List Lex.Token) (st1 : St)
+    (h : Resolves fs n fn fid b pre st1) : Resolves fs (n + k) fn fid b pre st1 := by
+  unfold Resolves at h ⊢
+  rw [walk_mono _ _ fs fn b (deeper_mono fs n k) _ _ (by rw [h]; intro x l nm hh; cases hh)]
+  exact h
+
+/-- a missing file that is reached under the budget `n` is reached under every larger budget -/
+theorem reachesMissing_mono (fs : FS) (n k : Nat) (fn : Filename) (fid : Nat) (b : Bytes) (e : Err)
+    (h : ReachesMissing fs n fn fid b e) : ReachesMissing fs (n + k) fn fid b e := by
+  induction h with
+  | here n fn fid b pre post inc nm st1 hlex hinc hnm hpre hmiss =>
+    exact .here (n + k) fn fid b pre post inc nm st1 hlex hinc hnm (resolves_mono fs n k fn fid b pre st1 hpre) hmiss
+  | deeper n fn fid b pre post inc nm st1 data e hlex hinc hnm hpre hload _ ih =>
+    have hnk : n + 1 + k = (n + k) + 1 := by omega
+    rw [hnk]
+    refine .deeper (n + k) fn fid b pre post inc nm st1 data e hlex hinc hnm ?_ hload ih
+    have := resolves_mono fs (n + 1) k fn fid b pre st1 hpre
+    rw [hnk] at this
+    exact this
+
+/-! ### every `IncludeFileError` is a missing file or the depth limit -/
+
+/-- an error of the walk arises at a directive in front of which everything resolves -/
+theorem walk_err_split (rec : Option Rec) (fs : FS) (fn : Filename) (b : Bytes) (l : List Tok) (st : St) (e : Err)
+    (h : walk rec fs fn b l st = .err e) :
+    ∃ pre inc post st1, l = pre ++ inc :: post ∧ inc.ttype = .include ∧ walk rec fs fn b pre st = .ok st1 ∧
+      ((e = .IncompleteIncludeError fn.display inc.line) ∨
+       ∃ nm rest, post = nm :: rest ∧ isName nm ∧
+         ((rec = none ∧ e = .IncludeFileError fn.display nm.line (nameOf b nm)) ∨
+          ∃ g, rec = some g ∧
+            ((load fs (resolve fs fn b nm).full = none ∧ e = .IncludeFileError fn.display nm.line (nameOf b nm)) ∨
+             ∃ data, load fs (resolve fs fn b nm).full = some data ∧
+               g (resolve fs fn b nm) st1.nextFileid data = .err e))) := by
+  fun_induction walk rec fs fn b l st with
+  | case1 st => cases h
+  | case2 t st hinc => cases h; exact ⟨[], t, [], st, rfl, hinc, walk_nil _ _ _ _ _, .inl rfl⟩
+  | case3 t st hinc nm ts' hn hf =>
+    cases h
+    exact ⟨[], t, nm :: ts', st, rfl, hinc, walk_nil _ _ _ _ _, .inr ⟨nm, ts', rfl, hn, .inl ⟨hf, rfl⟩⟩⟩
+  | case4 t st hinc nm ts' hn f hf data hload r hr ih =>
+    subst hf
+    obtain ⟨pre, inc, post, st1, hl, hi, hw, hc⟩ := ih h
+    refine ⟨t :: nm :: pre, inc, post, st1, by rw [hl]; rfl, hi, ?_, hc⟩
+    rw [walk_inc_some _ _ _ _ _ _ _ _ hinc hn, hload]
+    simp only [hr]
+    exact hw
+  | case5 t st hinc nm ts' hn f hf data hload e' hr =>
+    cases h
+    exact ⟨[], t, nm :: ts', st, rfl, hinc, walk_nil _ _ _ _ _,
+      .inr ⟨nm, ts', rfl, hn, .inr ⟨f, hf, .inr ⟨data, hload, hr⟩⟩⟩⟩
+  | case6 t st hinc nm ts' hn f hf data hload hr => cases h
+  | case7 t st hinc nm ts' hn f hf data hload hr => cases h
+  | case8 t st hinc nm ts' hn f hf hload =>
+    cases h
+    exact ⟨[], t, nm :: ts', st, rfl, hinc, walk_nil _ _ _ _ _,
+      .inr ⟨nm, ts', rfl, hn, .inr ⟨f, hf, .inl ⟨hload, rfl⟩⟩⟩⟩
+  | case9 t st hinc nm ts' hn => cases h; exact ⟨[], t, nm :: ts', st, rfl, hinc, walk_nil _ _ _ _ _, .inl rfl⟩
+  | case10 t ts st hinc ih =>
+    obtain ⟨pre, inc, post, st1, hl, hi, hw, hc⟩ := ih h
+    refine ⟨t :: pre, inc, post, st1, by rw [hl]; rfl, hi, ?_, hc⟩
+    rw [walk_cons_copy _ _ _ _ _ _ _ hinc]
+    exact hw
+
+theorem finish_err {x : R St} {e : Err} (h : finish x = .err e) : x = .err e := by
+  cases x with
+  | ok st => cases h
+  | err e' => simpa [finish] using h
+  | panic => cases h
+  | hang => cases h
+
+/-- **every `IncludeFileError` is that of a reachable missing file or that of the depth limit** -/
+theorem includeFileError_cases (fs : FS) : ∀ (n : Nat) (fn : Filename) (fid : Nat) (b : Bytes) (x : Path) (l : Nat)
+    (inm : Path), tokenize fs n fn fid b = .err (.IncludeFileError x l inm) →
+    ReachesMissing fs n fn fid b (.IncludeFileError x l inm) ∨
+    ReachesLimit fs n fn fid b (.IncludeFileError x l inm) := by
+  intro n
+  induction n with
+  | zero =>
+    intro fn fid b x l inm h
+    rw [tokenize_walk] at h
     cases hl : Lex.tokenize b with
     | err k l => rw [hl] at h; cases h
     | panic => rw [hl] at h; cases h
     | hang => rw [hl] at h; cases h
     | ok lt =>
       rw [hl] at h
-      simp only at h
-      obtain ⟨st', hw, hr⟩ := finish_ok h
-      have hsim : Sim (tokenize fs n) (expandI fs n) := fun fn fid b r h => ⟨(ih fn fid b r h).1, (ih fn fid b r h).2.1⟩
-      obtain ⟨inv', ⟨out, hexp, hview⟩, hown⟩ :=
-        walk_sim _ _ hsim fs fn fid b lt.length lt _ st' rfl (StInv.init fn fid b) hw
-      subst hr
-      refine ⟨⟨inv'.names, inv'.first, inv'.firstName, inv'.range, inv'.noInc⟩, ?_, ?_⟩
-      · rw [expandI, hl]
-        simp only
-        have h1 : (St.init fn fid b).nextFileid = fid + 1 := rfl
-        rw [h1] at hexp
-        rw [hexp, hview, inv'.next]
-        simp [St.init, view3]
-      · intro lt' hlt'
-        cases hlt'
-        rw [hown]
-        simp [St.init]
-
-
-/-! ### the fuel only matters for `.hang` -/
-
-theorem walk_mono (recA recB : Filename → Nat → Bytes → Res) (fs : FS) (fn : Filename) (b : Bytes)
-    (hrec : ∀ f i d, recA f i d ≠ .hang → recB f i d = recA f i d) (l : List Tok) (st : St)
-    (h : walk recA fs fn b l st ≠ .hang) : walk recB fs fn b l st = walk recA fs fn b l st := by
-  fun_induction walk recA fs fn b l st with
-  | case1 st => simp [walk_nil]
-  | case2 t st hinc => rw [walk_inc_nil _ _ _ _ _ _ hinc]
-  | case3 t st hinc nm ts' hn data hload r hr ih =>
-    rw [walk_inc_name _ _ _ _ _ _ _ _ hinc hn, hload]
-    simp only
-    rw [hrec _ _ _ (by rw [hr]; simp), hr]
-    exact ih h
-  | case4 t st hinc nm ts' hn data hload e hr =>
-    rw [walk_inc_name _ _ _ _ _ _ _ _ hinc hn, hload]
-    simp only
-    rw [hrec _ _ _ (by rw [hr]; simp), hr]
-  | case5 t st hinc nm ts' hn data hload hr =>
-    rw [walk_inc_name _ _ _ _ _ _ _ _ hinc hn, hload]
-    simp only
-    rw [hrec _ _ _ (by rw [hr]; simp), hr]
-  | case6 t st hinc nm ts' hn data hload hr => exact absurd rfl h
-  | case7 t st hinc nm ts' hn hload =>
-    rw [walk_inc_name _ _ _ _ _ _ _ _ hinc hn, hload]
-  | case8 t st hinc nm ts' hn => rw [walk_inc_notName _ _ _ _ _ _ _ _ hinc hn]
-  | case9 t ts st hinc ih =>
-    rw [walk_cons_copy _ _ _ _ _ _ _ hinc]
-    exact ih h
-
-theorem tokenize_fuel_succ (fs : FS) : ∀ (n : Nat) (fn : Filename) (fid : Nat) (b : Bytes),
-    tokenize fs n fn fid b ≠ .hang → tokenize fs (n + 1) fn fid b = tokenize fs n fn fid b := by
-  intro n
-  induction n with
-  | zero => intro fn fid b h; exact absurd rfl h
+      obtain ⟨pre, inc, post, st1, hsplit, hi, hw, hc⟩ := walk_err_split _ _ _ _ _ _ _ (finish_err h)
+      obtain ⟨pre0, r0, hlt, hpre0, hr0⟩ := List.map_eq_append_iff.1 hsplit
+      obtain ⟨inc0, post0, hr0', hinc0, hpost0⟩ := List.map_eq_cons_iff.1 hr0
+      subst hlt hr0' hpre0 hinc0 hpost0
+      rcases hc with hc | ⟨nm, rest, hpost, hn, hc⟩
+      · cases hc
+      · obtain ⟨nm0, rest0, hp0, hnm0, hrest0⟩ := List.map_eq_cons_iff.1 hpost
+        subst hp0 hnm0 hrest0
+        rcases hc with ⟨_, he⟩ | ⟨g, hg, _⟩
+        · right
+          rw [he]
+          exact .here fn fid b pre0 rest0 inc0 nm0 st1 hl hi hn hw
+        · cases hg
   | succ n ih =>
-    intro fn fid b h
-    rw [tokenize_succ fs (n + 1), tokenize_succ fs n]
-    rw [tokenize_succ fs n] at h
+    intro fn fid b x l inm h
+    rw [tokenize_walk] at h
     cases hl : Lex.tokenize b with
+    | err k l => rw [hl] at h; cases h
+    | panic => rw [hl] at h; cases h
+    | hang => rw [hl] at h; cases h
     | ok lt =>
       rw [hl] at h
-      simp only at h ⊢
-      rw [walk_mono (tokenize fs n) (tokenize fs (n + 1)) fs fn b (fun f i d hh => ih f i d hh)]
-      intro hw; rw [hw] at h; exact h rfl
-    | err k l => rfl
-    | panic => rfl
-    | hang => rfl
+      obtain ⟨pre, inc, post, st1, hsplit, hi, hw, hc⟩ := walk_err_split _ _ _ _ _ _ _ (finish_err h)
+      obtain ⟨pre0, r0, hlt, hpre0, hr0⟩ := List.map_eq_append_iff.1 hsplit
+      obtain ⟨inc0, post0, hr0', hinc0, hpost0⟩ := List.map_eq_cons_iff.1 hr0
+      subst hlt hr0' hpre0 hinc0 hpost0
+      rcases hc with hc | ⟨nm, rest, hpost, hn, hc⟩
+      · cases hc
+      · obtain ⟨nm0, rest0, hp0, hnm0, hrest0⟩ := List.map_eq_cons_iff.1 hpost
+        subst hp0 hnm0 hrest0
+        rcases hc with ⟨hnone, _⟩ | ⟨g, hg, hc⟩
+        · cases hnone
+        · cases hg
+          rcases hc with ⟨hload, he⟩ | ⟨data, hload, hg⟩
+          · left
+            rw [he]
+            exact .here (n + 1) fn fid b pre0 rest0 inc0 nm0 st1 hl hi hn hw hload
+          · rcases ih _ _ _ _ _ _ hg with h1 | h1
+            · exact .inl (.deeper n fn fid b pre0 rest0 inc0 nm0 st1 data _ hl hi hn hw hload h1)
+            · exact .inr (.deeper n fn fid b pre0 rest0 inc0 nm0 st1 data _ hl hi hn hw hload h1)
 
-theorem tokenize_fuel_mono (fs : FS) (n k : Nat) (fn : Filename) (fid : Nat) (b : Bytes)
-    (h : tokenize fs n fn fid b ≠ .hang) : tokenize fs (n + k) fn fid b = tokenize fs n fn fid b := by
+/-! ### the expansion under a larger budget -/
+
+theorem expandToks_mono (recA recB : Option (Path → Bytes → Option (List (TokType × Bytes)))) (fs : FS) (base : Path)
+    (b : Bytes)
+    (hrec : ∀ gA, recA = some gA → ∃ gB, recB = some gB ∧ ∀ p d out, gA p d = some out → gB p d = some out)
+    (lt : List Lex.Token) (out : List (TokType × Bytes)) (h : expandToks recA fs base b lt = some out) :
+    expandToks recB fs base b lt = some out := by
+  fun_induction expandToks recA fs base b lt generalizing out with
+  | case1 => simpa [expandToks] using h
+  | case2 t hinc => cases h
+  | case3 t hinc nm ts' hn hf => cases h
+  | case4 t hinc nm ts' hn g hg data hload inner out' h2 h1 ih =>
+    obtain ⟨gB, hB, hAB⟩ := hrec g hg
+    subst hg hB
+    rw [h1, h2] at h
+    rw [expandToks.eq_def]
+    simp only [if_pos hinc, if_pos hn, hload, hAB _ _ _ h1, ih _ h2]
+    exact h
+  | case5 t hinc nm ts' hn g hg data hload hno ih =>
+    subst hg
+    exfalso
+    cases h1 : g (targetPath fs base b nm) data with
+    | none => simp [h1] at h
+    | some inner =>
+      cases h2 : expandToks (some g) fs base b ts' with
+      | none => simp [h1, h2] at h
+      | some out' => exact hno inner out' h1 h2
+  | case6 t hinc nm ts' hn g hg hload => cases h
+  | case7 t hinc nm ts' hn => cases h
+  | case8 t ts hinc out' h2 ih =>
+    rw [expandToks.eq_def]
+    simp only [if_neg hinc, ih _ h2]
+    exact h
+  | case9 t ts hinc h2 ih => cases h
+
+theorem expand_succ (fs : FS) : ∀ (n : Nat) (base : Path) (b : Bytes) (out : List (TokType × Bytes)),
+    expand fs n base b = some out → expand fs (n + 1) base b = some out := by
+  intro n
+  induction n with
+  | zero =>
+    intro base b out h
+    show expandWith (some (expand fs 0)) fs base b = some out
+    have h' : expandWith none fs base b = some out := h
+    unfold expandWith at h' ⊢
+    cases hl : Lex.tokenize b with
+    | ok lt => rw [hl] at h'; exact expandToks_mono none _ fs base b (by intro g hg; cases hg) lt out h'
+    | err k l => rw [hl] at h'; cases h'
+    | panic => rw [hl] at h'; cases h'
+    | hang => rw [hl] at h'; cases h'
+  | succ n ih =>
+    intro base b out h
+    show expandWith (some (expand fs (n + 1))) fs base b = some out
+    have h' : expandWith (some (expand fs n)) fs base b = some out := h
+    unfold expandWith at h' ⊢
+    cases hl : Lex.tokenize b with
+    | ok lt =>
+      rw [hl] at h'
+      exact expandToks_mono _ _ fs base b (by intro g hg; cases hg; exact ⟨_, rfl, ih⟩) lt out h'
+    | err k l => rw [hl] at h'; cases h'
+    | panic => rw [hl] at h'; cases h'
+    | hang => rw [hl] at h'; cases h'
+
+/-- an expansion that exists under the budget `n` is the expansion under every larger budget -/
+theorem expand_mono (fs : FS) (n k : Nat) (base : Path) (b : Bytes) (out : List (TokType × Bytes))
+    (h : expand fs n base b = some out) : expand fs (n + k) base b = some out := by
   induction k with
-  | zero => rfl
-  | succ k ih =>
-    have : n + (k + 1) = (n + k) + 1 := by omega
-    rw [this, tokenize_fuel_succ fs (n + k) fn fid b (by rw [ih]; exact h), ih]
+  | zero => exact h
+  | succ k ih => exact expand_succ fs (n + k) base b out ih
 
 /-! ### file ids in the specification -/
 
-theorem expandIToks_ids (rec : Path → Nat → Bytes → Option (List Item × Nat)) (fs : FS) (base : Path) (b : Bytes)
-    (fid : Nat)
-    (hrec : ∀ p nx d inner nx', rec p nx d = some (inner, nx') → nx < nx' ∧ ∀ i ∈ inner, nx ≤ i.2.1 ∧ i.2.1 < nx')
+theorem expandIToks_ids (rec : Option (Path → Nat → Bytes → Option (List Item × Nat))) (fs : FS) (base : Path)
+    (b : Bytes) (fid : Nat)
+    (hrec : ∀ g, rec = some g → ∀ p nx d inner nx', g p nx d = some (inner, nx') →
+      nx < nx' ∧ ∀ i ∈ inner, nx ≤ i.2.1 ∧ i.2.1 < nx')
     (lt : List Lex.Token) (next : Nat) (out : List Item) (next' : Nat)
     (h : expandIToks rec fs base b fid lt next = some (out, next')) :
     next ≤ next' ∧ ∀ i ∈ out, i.2.1 = fid ∨ (next ≤ i.2.1 ∧ i.2.1 < next') := by
   fun_induction expandIToks rec fs base b fid lt next generalizing out next' with
   | case1 next => cases h; simp
   | case2 t next hinc => cases h
-  | case3 t next hinc nm ts' hn data hload inner next1 hrec1 out2 next2 hout ih =>
-    cases h
-    obtain ⟨h1, h2⟩ := hrec _ _ _ _ _ hrec1
+  | case3 t next hinc nm ts' hn hg => cases h
+  | case4 t next hinc nm ts' hn g hg data hload inner next1 hrec1 out2 next2 hout ih =>
+    obtain ⟨h1, h2⟩ := hrec g hg _ _ _ _ _ hrec1
     obtain ⟨h3, h4⟩ := ih _ _ hout
+    subst hg
+    rw [hout] at h
+    cases h
     refine ⟨by omega, fun i hi => ?_⟩
     rcases List.mem_append.1 hi with hi | hi
     · have := h2 i hi; right; omega
     · rcases h4 i hi with h5 | h5
       · exact .inl h5
       · right; omega
-  | case4 t next hinc nm ts' hn data hload inner next1 hrec1 hout ih => cases h
-  | case5 t next hinc nm ts' hn data hload hrec1 => cases h
-  | case6 t next hinc nm ts' hn hload => cases h
-  | case7 t next hinc nm ts' hn => cases h
-  | case8 t ts next hinc out2 next1 hout ih =>
+  | case5 t next hinc nm ts' hn g hg data hload inner next1 hrec1 hout ih =>
+    subst hg
+    rw [hout] at h
+    cases h
+  | case6 t next hinc nm ts' hn g hg data hload hrec1 => cases h
+  | case7 t next hinc nm ts' hn g hg hload => cases h
+  | case8 t next hinc nm ts' hn => cases h
+  | case9 t ts next hinc out2 next1 hout ih =>
     cases h
     obtain ⟨h3, h4⟩ := ih _ _ hout
     refine ⟨h3, fun i hi => ?_⟩
     rcases List.mem_cons.1 hi with hi | hi
     · subst hi; exact .inl rfl
     · exact h4 i hi
-  | case9 t ts next hinc hout ih => cases h
+  | case10 t ts next hinc hout ih => cases h
+
+theorem expandIWith_ids (rec : Option (Path → Nat → Bytes → Option (List Item × Nat))) (fs : FS)
+    (hrec : ∀ g, rec = some g → ∀ p nx d inner nx', g p nx d = some (inner, nx') →
+      nx < nx' ∧ ∀ i ∈ inner, nx ≤ i.2.1 ∧ i.2.1 < nx')
+    (base : Path) (fid : Nat) (b : Bytes) (out : List Item) (next' : Nat)
+    (h : expandIWith rec fs base fid b = some (out, next')) :
+    fid < next' ∧ ∀ i ∈ out, fid ≤ i.2.1 ∧ i.2.1 < next' := by
+  rw [expandIWith] at h
+  cases hl : Lex.tokenize b with
+  | ok lt =>
+    rw [hl] at h
+    obtain ⟨h1, h2⟩ := expandIToks_ids _ fs base b fid hrec lt _ _ _ h
+    refine ⟨by omega, fun i hi => ?_⟩
+    rcases h2 i hi with h3 | h3 <;> omega
+  | err k l => rw [hl] at h; cases h
+  | panic => rw [hl] at h; cases h
+  | hang => rw [hl] at h; cases h
 
 theorem expandI_ids (fs : FS) : ∀ (n : Nat) (base : Path) (fid : Nat) (b : Bytes) (out : List Item) (next' : Nat),
     expandI fs n base fid b = some (out, next') → fid < next' ∧ ∀ i ∈ out, fid ≤ i.2.1 ∧ i.2.1 < next' := by
   intro n
   induction n with
-  | zero => intro base fid b out next' h; cases h
+  | zero =>
+    intro base fid b out next' h
+    exact expandIWith_ids none fs (by intro g hg; cases hg) base fid b out next' h
   | succ n ih =>
     intro base fid b out next' h
-    rw [expandI] at h
-    cases hl : Lex.tokenize b with
-    | ok lt =>
-      rw [hl] at h
-      obtain ⟨h1, h2⟩ := expandIToks_ids _ fs base b fid ih lt _ _ _ h
-      refine ⟨by omega, fun i hi => ?_⟩
-      rcases h2 i hi with h3 | h3 <;> omega
-    | err k l => rw [hl] at h; cases h
-    | panic => rw [hl] at h; cases h
-    | hang => rw [hl] at h; cases h
+    exact expandIWith_ids (some (expandI fs n)) fs (by intro g hg; cases hg; exact ih) base fid b out next' h
+
+/-- the recursive call of the specification that is available with the depth budget `n` -/
+def deeperI (fs : FS) : Nat → Option (Path → Nat → Bytes → Option (List Item × Nat))
+  | 0 => none
+  | n + 1 => some (expandI fs n)
+
+theorem deeperI_ids (fs : FS) (n : Nat) : ∀ g, deeperI fs n = some g → ∀ p nx d inner nx',
+    g p nx d = some (inner, nx') → nx < nx' ∧ ∀ i ∈ inner, nx ≤ i.2.1 ∧ i.2.1 < nx' := by
+  intro g hg
+  cases n with
+  | zero => cases hg
+  | succ m => cases hg; exact expandI_ids fs m
 
 end A2l.Inc
